@@ -37,7 +37,7 @@ ASSUMPTIONS = [
     "revision-5/6 passwords are limited to strings on which SASLprep reduces to NFKC; R<=4 *correct* passwords are Latin-1",
     "V4 files use the same crypt filter for strings and streams (the library reports others as unsupported, a documented outcome)",
 ]
-PROBES = ["cross-reference table unusable (body scan)", "V1R2 RC4-40", "V2R3 RC4", "V4R4 V2", "V4R4 AESV2", "V4R4 Identity", "V5R5 AESV3", "V5R6 AESV3", "owner password differs", "empty user password", "non-ASCII password", "long password", "no ID", "EncryptMetadata false", "object stream", "generation > 0", "object number above 65535", "string inside stream dictionary", "eviction happened", "wrong password non-Latin-1", "two encrypted documents read alternately"]
+PROBES = ["right password after a wrong one, same parser", "cross-reference table unusable (body scan)", "V1R2 RC4-40", "V2R3 RC4", "V4R4 V2", "V4R4 AESV2", "V4R4 Identity", "V5R5 AESV3", "V5R6 AESV3", "owner password differs", "empty user password", "non-ASCII password", "long password", "no ID", "EncryptMetadata false", "object stream", "generation > 0", "object number above 65535", "string inside stream dictionary", "eviction happened", "wrong password non-Latin-1", "two encrypted documents read alternately"]
 TIERS = {
     "quick": {"batches": 16, "runs": 400, "budget_s": 50},
     "thorough": {"batches": 128, "runs": 500, "budget_s": 1200},
@@ -264,7 +264,16 @@ def run(tape, ctx, item=None):
         seams.EVICT.evictions = 0
         try:
             try:
-                doc = PDFDocument(PDFParser(BytesIO(enc_pdf)), password=pw, caching=caching)
+                parser = PDFParser(BytesIO(enc_pdf))
+                if t.coin(25, 100, "retry"):
+                    # the usual retry loop: a wrong password first, then the right one with the same parser object
+                    ctx.probe("right password after a wrong one, same parser")
+                    cfgs += "; after a rejected attempt with the same parser"
+                    try:
+                        PDFDocument(parser, password=pw + "?", caching=caching)
+                    except PDFPasswordIncorrect:
+                        pass
+                doc = PDFDocument(parser, password=pw, caching=caching)
             except Exception as e:
                 devs.append(Dev("C10:open:raise:%s@%s" % (type(e).__name__, where(e)), "%r; %s" % (e, cfgs)))
                 continue
